@@ -88,8 +88,8 @@ fn build_env(ids: &[u64], wrong_store: Option<u64>, disabled: Option<u64>) -> En
 // ------------------------------------------------------------------ Create
 fn gen_create(rng: &mut Rng) {
     let all: Vec<u64> = (0..8).collect();
-    let wrong_store = if rng.chance(1, 12) { Some(rng.below(8)) } else { None };
-    let disabled = if rng.chance(1, 12) { Some(rng.below(8)) } else { None };
+    let wrong_store = if rng.chance(1, 25) { Some(rng.below(8)) } else { None };
+    let disabled = if rng.chance(1, 25) { Some(rng.below(8)) } else { None };
     let mut env = build_env(&all, wrong_store, disabled);
     let cur = rng.below(8);
     let (cix, cl, cs) = TOKS[cur as usize];
@@ -98,9 +98,9 @@ fn gen_create(rng: &mut Rng) {
         let mut tok = start;
         let mut path = vec![];
         for _ in 0..want_len {
-            let cands: Vec<u64> = (0..8).filter(|m| { let (_, l, s) = TOKS[*m as usize]; (l == tok || s == tok) && (rng.chance(1, 10) || !path.contains(m)) }).collect();
+            let cands: Vec<u64> = (0..8).filter(|m| { let (_, l, s) = TOKS[*m as usize]; (l == tok || s == tok) && l != s && (rng.chance(1, 25) || !path.contains(m)) }).collect();
             if cands.is_empty() { break; }
-            let m = if rng.chance(1, 12) { rng.below(8) } else { cands[rng.below(cands.len() as u64) as usize] };
+            let m = if rng.chance(1, 30) { rng.below(8) } else { cands[rng.below(cands.len() as u64) as usize] };
             let (_, l, s) = TOKS[m as usize];
             path.push(m);
             tok = if tok == l { s } else if tok == s { l } else { tok };
@@ -112,12 +112,12 @@ fn gen_create(rng: &mut Rng) {
     let (n1, n2) = (rng.below(5) as usize, rng.below(5) as usize);
     let (p1, e1) = mk_path(rng, tin1, n1);
     let (p2, e2) = mk_path(rng, tin2, n2);
-    let tout1 = if rng.chance(9, 10) { e1 } else { rng.below(4) };
-    let tout2 = if rng.chance(9, 10) { e2 } else { rng.below(4) };
+    let tout1 = if rng.chance(19, 20) { e1 } else { rng.below(4) };
+    let tout2 = if rng.chance(19, 20) { e2 } else { rng.below(4) };
     let mut plen = p1.len() as u8;
     let mut slen = p2.len() as u8;
     let mut accts: Vec<u64> = p1.iter().chain(p2.iter()).copied().collect();
-    match rng.below(14) {
+    match rng.below(24) {
         0 => { slen += 1; }                         // not enough markets
         1 => { plen = 6; slen = 5; }                // too long
         2 => { accts.push(rng.below(8)); }          // extra account is ignored
